@@ -187,14 +187,32 @@ def gen_exhaustive(ck: Check, t: Tpl):
                 yield "exh_sampled", [ck.rng.choice(ALPHA) for _ in range(d)]
 
 
+class DecodeTimeout(Exception):
+    """the real decoder did not return within DECODE_LIMIT_S seconds"""
+
+
+DECODE_LIMIT_S = 10.0
+
+
+def _alarm(signum, frame):
+    raise DecodeTimeout
+
+
 def impl_decode(t: Tpl, x, y=None):
+    import signal
+
     import numpy as np
     arr = np.array(x, dtype=np.float64)
     y = [] if y is None else y
+    old = signal.signal(signal.SIGALRM, _alarm)
+    signal.setitimer(signal.ITIMER_REAL, DECODE_LIMIT_S)
     try:
         t.dec.decode(arr, y)
     except IndexError:
         return None, None
+    finally:
+        signal.setitimer(signal.ITIMER_REAL, 0)
+        signal.signal(signal.SIGALRM, old)
     res = y[0]
     from numpy.random import default_rng
     perm = list(range(res.n_different_items))
@@ -245,6 +263,9 @@ def streams(ck: Check) -> None:
         ck.case(line)
         ck.spec(sp.inst_name == t.inst.name + "n", "name_suffix", "space name is not the template's name + 'n'",
                 {"template": t.name})
+        ck.spec(sp.min_bins == min(t.inst.lower_bound_bins, t.inst.n_items) and sp.n_items == t.inst.n_items
+                and sp.bin_width == t.inst.bin_width and sp.bin_height == t.inst.bin_height, "space_fields",
+                "space does not carry the template's bin size / item count / minimum number of bins", {"template": t.name})
         ck.spec(sp.n_items <= sp.min_bins * sp.bin_width * sp.bin_height and 1 <= sp.min_bins <= sp.n_items,
                 "space_ok", "template-derived space violates n_items <= min_bins*W*H", {"template": t.name})
     # templates the space must reject (correspondence of the range checks)
@@ -262,8 +283,20 @@ def streams(ck: Check) -> None:
         ck.count("space_reject")
 
     # ---- decode
+    hung = [0]
+
     def add_decode(t: Tpl, stream: str, x, in_range: bool):
-        res, perm = impl_decode(t, x)
+        if hung[0] >= 3:           # a decoder that hangs repeatedly: stop feeding it
+            return None
+        try:
+            res, perm = impl_decode(t, x)
+        except DecodeTimeout:
+            hung[0] += 1
+            ck.spec(False, "terminates", f"decode did not return within {DECODE_LIMIT_S} s (the model terminates: "
+                    "theorem phase1_terminates / phase2_inv)",
+                    {"template": t.name, "W": t.W, "H": t.H, "min_bins": t.k, "n_items": t.n,
+                     "template_items": t.items, "x_repr": repr(list(x))[:1500]})
+            return None
         ck.count(stream)
         ck.count(f"slack_pairs_{max(0, (len(x) - 2 * t.base) // 2)}" if len(x) >= 2 * t.base else "too_short")
         if res is None:
@@ -398,15 +431,19 @@ def hardness_test(ck: Check, tpls) -> None:
         x = [ck.rng.uniform(-1, 1) for _ in range(2 * t.base + 4)]
         res, _ = impl_decode(t, x)
         for inst in (res, t.inst):
-            h1 = Hardness(max_fes=24, n_runs=2)
-            a, b = h1.evaluate([inst]), h1.evaluate(inst)
-            c = Hardness(max_fes=24, n_runs=2).evaluate([inst])
-            ck.count("hardness_eval", 3)
             case = {"template": t.name, "items": [list(map(int, r)) for r in inst]}
+            try:
+                h1 = Hardness(max_fes=24, n_runs=2)
+                a, b = h1.evaluate([inst]), h1.evaluate(inst)
+                c = Hardness(max_fes=24, n_runs=2).evaluate([inst])
+                eh = ErrorsAndHardness(t.space, max_fes=24, n_runs=1)
+                v1, v2 = eh.evaluate([inst]), eh.evaluate([inst])
+            except ValueError as e:
+                ck.spec(False, "hardness_raises", f"Hardness/ErrorsAndHardness.evaluate raised {e!r}", case)
+                continue
+            ck.count("hardness_eval", 3)
             ck.spec(0.0 <= a <= 1.0, "hardness_range", f"Hardness.evaluate = {a} outside [0,1]", case)
             ck.spec(a == b == c, "hardness_repeat", f"Hardness.evaluate not repeatable: {a}, {b}, {c}", case)
-            eh = ErrorsAndHardness(t.space, max_fes=24, n_runs=1)
-            v1, v2 = eh.evaluate([inst]), eh.evaluate([inst])
             ck.count("errors_and_hardness_eval", 2)
             ck.spec(0.0 <= v1 <= 1.0 and v1 == v2, "errors_and_hardness", f"ErrorsAndHardness.evaluate = {v1}, {v2}", case)
 
